@@ -56,6 +56,33 @@ static void item (long it, void *arg)
 	vf_stat_add (st_trans, n);
 }
 
+/* long ranges: every T in 1..T_LONG (block of 4096 per item) x a list of B, with E = 1 and with E in {2, 1024, 1500} at
+ * the three lengths around each multiple of E (L = T*E-(E-1), T*E-1, T*E: the ceiling boundary) */
+static long T_LONG;
+static const uint64_t LB[] = {1, 2, 3, 4, 5, 7, 8, 9, 15, 16, 17, 31, 32, 33, 63, 64, 65, 100, 127, 128, 129, 254, 255, 256, 257, 1000, 1023, 1024, 1025, 4096, 10000, 50000, 65535, 65536, 65537, 100000, 1000000, 16777215, 16777216, 16777217};
+static void item_long (long it, void *arg)
+{
+	uint64_t T, lo = (uint64_t) it * 4096 + 1, hi = lo + 4096;
+	static const uint64_t ES[] = {2, 1024, 1500};
+	long n = 0;
+	int b, e;
+	(void) arg;
+	vf_slot_set_prop ("C20");
+	snprintf (vf_slot (), VF_SLOT_LEN, "long T=%llu..", (unsigned long long) lo);
+	for (T = lo; T < hi && T <= (uint64_t) T_LONG; T++)
+		for (b = 0; b < (int) (sizeof LB / sizeof LB[0]); b++) {
+			check_one (T, 1, LB[b]); n++;
+			if ((b % 3) == (int) (T % 3))
+				for (e = 0; e < 3; e++) {
+					uint64_t top = T * ES[e];
+					if (top > 0xFFFFFFFFULL) continue;
+					check_one (top, ES[e], LB[b]); check_one (top - 1, ES[e], LB[b]); check_one (top - (ES[e] - 1), ES[e], LB[b]); n += 3;
+				}
+		}
+	vf_heartbeat ();
+	vf_stat_add (st_trans, n);
+}
+
 static void item_replay (long it, void *arg)
 {
 	unsigned long long L = 0, E = 0, B = 0;
@@ -86,6 +113,9 @@ int main (int argc, char **argv)
 		return 0;
 	}
 	vf_pool_run (TB_MAX + E_MAX + 1, item, NULL, 0);
+	T_LONG = thorough ? (1L << 22) : (1L << 19);
+	vf_pool_run ((T_LONG + 4095) / 4096, item_long, NULL, 0);
+	vf_outcome ("long_T_range", T_LONG);
 	{
 		of_blocking_struct_t bs;
 		blk_ref r;
